@@ -2,7 +2,9 @@ package storesim
 
 import (
 	"fmt"
+	"os"
 	"testing"
+	"time"
 
 	mavldb "github.com/33cn/chain33/system/store/mavl/db"
 
@@ -166,6 +168,9 @@ func (w *c05World) fail(v *simrt.Violation) {
 
 func (c05) Execute(t *testing.T, ctx *simrt.Ctx) *simrt.Violation {
 	w := &c05World{ctx: ctx, content: map[string]*State{}}
+	if d := os.Getenv("VERIF_C05_DUMP"); d != "" {
+		_ = simrt.WriteReplay(d, ctx.Sc)
+	}
 	simrt.InBubble(t, func() { w.run() })
 	return w.viol
 }
@@ -449,7 +454,7 @@ func (w *c05World) crash() {
 	clone := old.Clone(oldID + "-c")
 	// let the abandoned process finish its pruning pass on the abandoned disk
 	for i := 0; i < 1000000; i++ {
-		w.actor.Yield("abandoned-pruner")
+		time.Sleep(time.Millisecond)
 		if !w.prunerAlive() {
 			break
 		}
@@ -470,8 +475,10 @@ func (w *c05World) crash() {
 func (w *c05World) drain() {
 	// yield first: a pruner goroutine that Save has just started must get the chance
 	// to mark the pass as running before the flag is looked at
+	// (the chain sleeps in virtual time instead of yielding: while it sleeps the
+	// pruner is the only task the scheduler can release, so it cannot be starved)
 	for i := 0; i < 1000000; i++ {
-		w.actor.Yield("wait-pruner")
+		time.Sleep(time.Millisecond)
 		if !w.prunerAlive() {
 			break
 		}
